@@ -498,6 +498,7 @@ func (w *World) Sync(n *node.Node, now int64, neigh []Neighbour) (*Verdict, Sync
 		h     uint64
 		bytes []byte
 		ok    bool
+		dur   time.Duration
 	}
 	rec := make([][]served, len(neigh))
 	release := make(chan struct{})
@@ -510,12 +511,13 @@ func (w *World) Sync(n *node.Node, now int64, neigh []Neighbour) (*Verdict, Sync
 			c := calls
 			calls++
 			if nb.Silent {
-				rec[i] = append(rec[i], served{h, nil, false})
+				rec[i] = append(rec[i], served{h, nil, false, 0})
 				<-release
 				return nil, fmt.Errorf("late")
 			}
+			t := time.Now()
 			b, err := nb.Answer(h, c)
-			rec[i] = append(rec[i], served{h, b, err == nil})
+			rec[i] = append(rec[i], served{h, b, err == nil, time.Since(t)})
 			return b, err
 		}})
 	}
@@ -540,24 +542,56 @@ func (w *World) Sync(n *node.Node, now int64, neigh []Neighbour) (*Verdict, Sync
 	d := &defs{}
 	var extra []*ledger.Block
 	resps := []map[string]interface{}{}
-	// an answer that arrived after the node's real-time timeout is, for the node, no answer
-	late := map[string]bool{}
+	// an answer that arrived after the node's real-time timeout is, for the node, no answer.  The node logs one
+	// line per timed-out fetch naming the target and the phase; several senders may share a target, so the k
+	// timed-out fetches of a (target, phase) are attributed to the k slowest answers recorded for it.
+	lateCount := map[string]int{}
 	for _, l := range n.Log.Snapshot() {
 		if strings.Contains(l, "neighbor's response timeout") {
+			seen := map[string]bool{}
 			for _, nb := range neigh {
-				if strings.Contains(l, "for target "+nb.Target+":") {
-					if strings.Contains(l, "last neighbor blocks") {
-						late[nb.Target+"/a"] = true
-					} else {
-						late[nb.Target+"/b"] = true
-					}
+				if seen[nb.Target] || !strings.Contains(l, "for target "+nb.Target+":") {
+					continue
+				}
+				seen[nb.Target] = true
+				if strings.Contains(l, "last neighbor blocks") {
+					lateCount[nb.Target+"/a"]++
+				} else {
+					lateCount[nb.Target+"/b"]++
 				}
 			}
 		}
 	}
+	phaseOf := func(h uint64) string {
+		if hostLen > 2 && h == uint64(hostLen-1) && h != 0 {
+			return "/a"
+		} else if h == 0 {
+			return "/b"
+		}
+		return ""
+	}
+	lateRec := map[[2]int]bool{} // (sender index, record index)
+	for key, k := range lateCount {
+		type cand struct {
+			i, j int
+			dur  time.Duration
+		}
+		var cs []cand
+		for i, nb := range neigh {
+			for j, sv := range rec[i] {
+				if ph := phaseOf(sv.h); ph != "" && nb.Target+ph == key {
+					cs = append(cs, cand{i, j, sv.dur})
+				}
+			}
+		}
+		sort.SliceStable(cs, func(x, y int) bool { return cs[x].dur > cs[y].dur })
+		for x := 0; x < k && x < len(cs); x++ {
+			lateRec[[2]int{cs[x].i, cs[x].j}] = true
+		}
+	}
 	for i, nb := range neigh {
 		r := map[string]interface{}{"t": nb.Target, "a": nil, "b": nil}
-		for _, s := range rec[i] {
+		for j, s := range rec[i] {
 			var hs interface{}
 			if s.ok {
 				if bs := decodeBlocks(s.bytes); bs != nil {
@@ -569,14 +603,14 @@ func (w *World) Sync(n *node.Node, now int64, neigh []Neighbour) (*Verdict, Sync
 					hs = l
 				}
 			}
-			if hostLen > 2 && s.h == uint64(hostLen-1) && s.h != 0 {
-				if !late[nb.Target+"/a"] {
-					r["a"] = hs
-				}
-			} else if s.h == 0 {
-				if !late[nb.Target+"/b"] {
-					r["b"] = hs
-				}
+			if lateRec[[2]int{i, j}] {
+				continue
+			}
+			switch phaseOf(s.h) {
+			case "/a":
+				r["a"] = hs
+			case "/b":
+				r["b"] = hs
 			}
 		}
 		resps = append(resps, r)
